@@ -147,6 +147,23 @@ def run_one(seed, tier, explicit=None):
                 d = sim.W.workdir('c07-%s-%s' % (route, tag))
                 path = xmlout.package(route if route != 'mem' else 'xml', d, tgt['name'], data,
                                       siblings=sib_data if with_sibs else None)
+                if route in ('xml', 'pkg') and prng.random() < 0.3 and len(data) > 40:
+                    # the copy is still in progress when the path is supplied for the first
+                    # time (rejected, nothing stored); it then completes IN PLACE - the same
+                    # file rewritten, no directory entry changes - and the same path is
+                    # supplied again
+                    rf = sim._resource_file(path)
+                    with open(rf, 'wb') as fh:
+                        fh.write(data[:max(1, prng.randrange(1, len(data) - 2))])
+                    sim.W.begin_op(budget=sim.budget)
+                    sim.call(wn.add, path, progress_handler=None)
+                    sim.W.end_op()
+                    with open(rf, 'r+b') as fh:
+                        fh.seek(0)
+                        fh.write(data)
+                        fh.truncate()
+                    stats['torn_then_repaired'] = stats.get('torn_then_repaired', 0) + 1
+                    sim.load()      # (whatever the torn copy did is not judged here: C06/C20)
                 before = sha_tree(d)
                 sim.W.short_reads = prng.random() < 0.5     # also inside gzip/xz streams
                 sim.W.begin_op(budget=sim.budget)
@@ -273,7 +290,9 @@ def run_one(seed, tier, explicit=None):
                                   {'msg': str(b)}).to_json()
         return {
             'seed': seed, 'violation': violation, 'digest': sim.W.event_digest(),
-            'ops': stats['evals'], 'faults': {}, 'states': [], 'probes': stats['routes'],
+            'ops': stats['evals'], 'faults': {}, 'states': [],
+            'probes': dict(stats['routes'], **{'torn-then-repaired-in-place':
+                                               stats.get('torn_then_repaired', 0)}),
             'cells': [], 'evals': stats['evals'], 'nt': len(stats['nontrivial']),
             'known_hits': dict(compare.KNOWN_HITS), 'nontrivial': bool(stats['nontrivial']),
             'sample': {'pre_history': pre, 'target': tgt and tgt['lexicons'],
